@@ -23,10 +23,14 @@ Proof. apply run_outs_ok. Qed.
 
 Lemma fuel_suffices own ops p e fuel :
   own < M -> Forall op_valid ops -> pid p < M -> (386 <= fuel)%nat ->
-  exists v probed t', add_peer true own e fuel (run own ops) p = (Ret v, probed, t').
+  exists r probed t', add_peer true own e fuel (run own ops) p = (r, probed, t') /\ r <> ErrFuel /\ r <> ErrIndex /\
+    ((forall q, probe e q <> PLocalFail) -> exists v, r = Ret v).
 Proof.
   intros Ho V Hp Fu. pose proof (add_peer_facts own e fuel _ p (run_wf own ops Ho V) Ho Hp Fu) as H.
-  destruct (add_peer true own e fuel (run own ops) p) as [[r pr] t']. destruct H as (_ & (v & ->) & _). eauto.
+  destruct (add_peer true own e fuel (run own ops) p) as [[r pr] t'].
+  destruct H as (_ & [(v & ->) | (-> & q & _ & Pq)] & _); do 3 eexists; (split; [reflexivity |]).
+  - split; [discriminate |]. split; [discriminate | eauto].
+  - split; [discriminate |]. split; [discriminate |]. intros NF. destruct (NF q Pq).
 Qed.
 
 Lemma closest_exact own ops key count sender :
@@ -37,7 +41,7 @@ Proof. intros Ho V Hc. apply find_close_exact; [apply run_wf; assumption | exact
 
 Lemma live_contact_kept own ops p e x :
   own < M -> Forall op_valid ops -> pid p < M ->
-  In x (contacts (run own ops)) -> pid x <> pid p -> pkey x <> pkey p -> probe e x = true ->
+  In x (contacts (run own ops)) -> pid x <> pid p -> pkey x <> pkey p -> probe e x <> PDead ->
   In x (contacts (fst (step true own (run own ops) (Add p e)))).
 Proof.
   intros Ho V Hp Hx Ni Nk Pr. cbn [step].
@@ -56,7 +60,7 @@ Lemma displaced_only_if_probed own ops p e x :
   own < M -> Forall op_valid ops -> pid p < M ->
   In x (contacts (run own ops)) -> pid x <> pid p -> pkey x <> pkey p ->
   match step true own (run own ops) (Add p e) with
-  | (t', OAdd _ probed) => In x (contacts t') \/ (In x probed /\ probe e x = false)
+  | (t', OAdd _ probed) => In x (contacts t') \/ (In x probed /\ probe e x = PDead)
   | _ => False
   end.
 Proof.
@@ -64,7 +68,7 @@ Proof.
   pose proof (add_peer_facts own e FUEL _ p (run_wf own ops Ho V) Ho Hp FUEL_ge) as H.
   destruct (add_peer true own e FUEL (run own ops) p) as [[r pr] t'].
   destruct H as (_ & _ & _ & _ & H1 & H2 & _).
-  destruct (probe e x) eqn:Px; [left; apply H1; auto |].
+  destruct (probe e x) eqn:Px; [left; apply H1; auto; congruence | | left; apply H1; auto; congruence].
   destruct (in_dec peer_eq_dec x pr) as [I | I].
   - right. auto.
   - left. apply H2; auto.
@@ -138,7 +142,7 @@ Proof.
 Qed.
 
 (* ---------- the old _join_buckets (range_max = midpoint - 1) ---------- *)
-Definition env0 : env := mkEnv (fun _ => false) (fun _ => Stale) (fun _ => true).
+Definition env0 : env := mkEnv (fun _ => false) (fun _ => Stale) (fun _ => PReply).
 Definition pk (id n : N) : peer := mkPeer id (184549377 + n) 4444.
 Definition gap_ops : list op :=
   [Add (pk 1 1) env0; Add (pk 2 2) env0; Add (pk 3 3) env0; Add (pk 4 4) env0;
